@@ -1,6 +1,6 @@
 SPECIFICATION Spec
 CONSTANTS
   Vals = {0, 1, 2, 9, 10, 16, 171, 255, 256}
-  Alphabet = {48, 102, 70, 103}
+  Alphabet = {48, 102, 70, 103, 43}
 INVARIANTS EmitCase
 CHECK_DEADLOCK FALSE
